@@ -93,6 +93,8 @@ def run_unit(unit, canary=False, use_cache=True, log_air=False):
         return res
     res["functions"] = info["functions"]
     res["rewrite_counts"] = info["rewrite_counts"]
+    res["extract_warnings"] = info.get("warnings", [])
+    warned_fns = set(w["fn"] for w in res["extract_warnings"])
     res["trusted"] = trusted_scan(gen, linemap)
     tag = unit + ("_canary" if canary else "")
     gen_path = os.path.join(WORK, tag + ".rs")
@@ -173,6 +175,9 @@ def run_unit(unit, canary=False, use_cache=True, log_air=False):
         if k2 == "postcondition":
             # a postcondition is a contract clause: semantic wherever the return point is, if the fn is extracted code
             semantic = meta.get("fn") is not None and origin in ("code", "spec") and not fn.startswith("lemma")
+        if fn in warned_fns:
+            # the proof script lost an anchor/loop/rule in this function: its failures say "script no longer fits", not "contract violated"
+            semantic = False
         name = "%s::%s::%s@%s" % (unit, fn, k2, clause if (k2 == "postcondition" and clause) else anchor)
         res["failures"].append({"name": name, "kind": k2, "class": "semantic" if semantic else "auxiliary", "fn": fn,
                                 "tags": meta.get("tags", []), "message": msg, "origin": origin,
